@@ -380,6 +380,18 @@ def contract_units(prop, modules, ctx, max_paths=6000, weight=None, slices=None)
         kn = [(e["obligation"], e.get("witness"), e["id"]) for e in known
               if e["obligation"].startswith(key + "/")]
 
+        explicit = getattr(c, 'split_units', None)
+        if explicit:
+            # an explicit partition of the exploration: each unit forces the named choices
+            for force in explicit:
+                def fn(sess, c=c, kn=kn, force=dict(force)):
+                    sess.force = force
+                    modular.prove_contract(sess, c, max_paths=getattr(c, 'max_paths', None) or max_paths,
+                                           known=kn)
+                uname = key + "@" + ",".join("%s=%d" % (lab, k) for lab, k in sorted(force.items()))
+                units.append(Unit(uname, fn, "contract", contract=c, weight=weight.get(key, 1),
+                                  bounded=bool(getattr(c, 'bounded_note', None))))
+            continue
         split = getattr(c, 'split_by', None)
         if split:
             # one unit per combination of the named top-level choices (explored in parallel)
